@@ -2,6 +2,7 @@ package props
 
 import (
 	"fmt"
+	"strings"
 	"testing"
 
 	"pgregory.net/rapid"
@@ -205,12 +206,37 @@ func runC02(ci interface{}, st *CaseStats) error {
 	return nil
 }
 
+// probeC02RangeAhead: one client's create is parked at its commit, another client creates a different key and reads it
+// back, as a single-key range, at the revision it was answered with (ahead of the committed revision)
+func probeC02RangeAhead() (bool, string) {
+	base := ConcCase{Engine: EngMem, Keys: []string{"a", "b"}, Clients: [][]WOp{{{Kind: "create", K: 0}}, {{Kind: "create", K: 1}}}, ReadOwn: true}
+	for mask := 0; mask < 256; mask++ {
+		c := base
+		c.Sched = nil
+		for i := 0; i < 8; i++ {
+			c.Sched = append(c.Sched, (mask>>uint(i))&1)
+		}
+		h, err := RunConc(&c)
+		if h != nil && h.Env != nil {
+			rerr := h.CheckRevisions()
+			h.Env.Close()
+			if err == nil && rerr != nil && strings.Contains(rerr.Error(), "range read back at revision") {
+				return true, rerr.Error()
+			}
+		}
+	}
+	return false, ""
+}
+
 var specC02 = &Spec{
-	ID:          "C02",
-	Rule:        "cases as C01 with 2..6 clients. Own revision of an attempt = header revision (successes, failed creates) or the revision decoded from the version record of any batch the attempt sent to storage (shim log). Oracle: own revisions pairwise distinct and greater than every revision issued before; if A returned before B was invoked (logical clock ticking at every invocation and response) then own(A) < own(B), or < header(B) when B's own revision is unknown; per-key strictly increasing modification revisions (chain walk); header >= revision of every kv in the response; each delivered event carries the revision of the write it reports. Non-trivial = at least two concurrent attempts and at least one failed update/delete whose response carries a kv; distinct = SHA-1 of the case",
-	Gen:         func(t *rapid.T) interface{} { return genConcCase(t, 8, 0, 6) },
-	New:         func() interface{} { return &ConcCase{} },
-	Run:         runC02,
+	ID:   "C02",
+	Rule: "cases as C01 with 2..6 clients. Own revision of an attempt = header revision (successes, failed creates) or the revision decoded from the version record of any batch the attempt sent to storage (shim log). Oracle: own revisions pairwise distinct and greater than every revision issued before; if A returned before B was invoked (logical clock ticking at every invocation and response) then own(A) < own(B), or < header(B) when B's own revision is unknown; per-key strictly increasing modification revisions (chain walk); header >= revision of every kv in the response; each delivered event carries the revision of the write it reports. Non-trivial = at least two concurrent attempts and at least one failed update/delete whose response carries a kv; distinct = SHA-1 of the case",
+	Gen:  func(t *rapid.T) interface{} { return genConcCase(t, 8, 0, 6) },
+	New:  func() interface{} { return &ConcCase{} },
+	Run:  runC02,
+	Probes: map[string]func() (bool, string){
+		"range-read-ahead-of-committed-revision-header-below-kv": probeC02RangeAhead,
+	},
 	Assumptions: []string{"attempts that fail before reaching storage reveal only an upper bound of their own revision (their header)"},
 	Engines:     []string{EngMem, EngBadger, EngTiKV},
 }
